@@ -20,7 +20,8 @@ IsEv(n) == l <= Len(Log) /\ Log[l].ev = n /\ l' = l + 1
 
 TrReset == IsEv("s.reset") /\ hs' = [h \in 1..H |-> Free] /\ UNCHANGED <<slast, shist>>
 LiveSet(S) == {h \in 1..H : Live(S, h)}
-(* flags : sequence of <<handle, cached>> for the handles the replayer holds *)
+(* flags : sequence of <<handle, cached>> for the handles the replayer holds as contexts (an orphan has no
+   context left whose flag could be read: it is not listed) *)
 ObsLive == {e.flags[i][1] : i \in 1..Len(e.flags)}
 ObsFlag(h) == LET i == CHOOSE i \in 1..Len(e.flags) : e.flags[i][1] = h IN e.flags[i][2]
 TrStep ==
